@@ -13,12 +13,17 @@ features = ""
 if "--demo-cmd" in args: demo_cmd = args[args.index("--demo-cmd")+1]
 if "--needs" in args: needs = args[args.index("--needs")+1]
 src = f"/tmp/mw/{prop}/out"
+outname = f"{prop}-{m}"
+if "--src" in args: src = args[args.index("--src")+1]
+if "--name" in args: outname = args[args.index("--name")+1]
 W = os.environ.get("SEED_W", "/tmp/mw/own")
 def sh(cmd, cwd=W, timeout=3000):
     return subprocess.run(cmd, shell=True, text=True, capture_output=True, cwd=cwd, timeout=timeout)
 sh("git checkout -q -- . && git clean -fdq tests src")
 patch = f"{src}/{m}.diff"; demo = f"{src}/{m}_demo.rs"
 name = f"demo_{prop.lower()}_{m}"
+if "--what" in args: res_what = args[args.index("--what")+1]
+else: res_what = ""
 res = {"property": prop, "mutant": m, "source": "independent sub-agent (given only the property text and a scratch worktree)"}
 r = sh(f"git apply {patch}")
 if r.returncode != 0:
@@ -45,7 +50,8 @@ if not ok2: print(d2.stdout[-1500:])
 sh("git checkout -q -- . && git clean -fdq tests src")
 res["confirmed"] = bool(failed == 0 and passed > 900 and ok1 and ok2)
 res["needs_to_manifest"] = needs
-out = f"/verif/seeded/{prop}-{m}"
+res["what"] = res_what
+out = f"/verif/seeded/{outname}"
 os.makedirs(out, exist_ok=True)
 shutil.copy(patch, f"{out}/patch.diff"); shutil.copy(demo, f"{out}/demo.rs")
 json.dump(res, open(f"{out}/meta.json", "w"), indent=1)
